@@ -109,6 +109,7 @@ def check(case):
     try:
         text = SPLOTWriter(engine.tmppath('m.sxfm'), fm).transform()
         engine.tick()
+        engine.note(text)
     except Exception as exc:  # noqa: BLE001
         out.append(Fail('splot-write-raises:%s' % type(exc).__name__, str(exc)[:200]))
         text = None
@@ -130,6 +131,7 @@ def check(case):
     try:
         text = PLWriter(engine.tmppath('m.exp'), fm).transform()
         engine.tick()
+        engine.note(text)
     except Exception as exc:  # noqa: BLE001
         out.append(Fail('pl-write-raises:%s' % type(exc).__name__, str(exc)[:200]))
         text = None
